@@ -86,7 +86,7 @@ impl<'a> RenumVisitor<'a> {
             Integer(col, n) => (col, *n as f64),
             _ => return,
         };
-        if col.is_empty() || n > LineNumber::max_value() as f64 {
+        if col.is_empty() || n < 0.0 || n > LineNumber::max_value() as f64 {
             return;
         }
         let n = n as u16;
